@@ -187,7 +187,15 @@ def judge_declarative(case, ctx, prefix):
             if rng.random() < 0.5:
                 w['length'] = rng.choice([1, 2])
             els.append(w)
-    els.append({'type': 'ground'})
+        if k >= 1 and rng.random() < 0.2:
+            nd = {'type': 'node', 'name': f'N{k}'}               # a named node on the current position, possibly turned
+            if rng.random() < 0.5:
+                nd['direction'] = rng.choice(dirs)
+            els.append(nd)
+    gnd = {'type': 'ground'}
+    if rng.random() < 0.5:
+        gnd['direction'] = rng.choice(dirs)                      # a ground symbol is routinely turned (it has a direction but no length)
+    els.append(gnd)
     desc = {'unit': unit, 'elements': els}
     ctx.evaluated(repr((sorted(e['type'] for e in els), sorted(e.get('direction', '') for e in els), sum('place_after' in e for e in els), sum('length' in e for e in els))), True)
     ctx.count('declarative_lists')
@@ -216,9 +224,13 @@ def judge_declarative(case, ctx, prefix):
                     s = elm.Line()
                 elif t == 'ground':
                     s = elm.Ground()
+                elif t == 'node':
+                    s = elm.Node(**e)
                 else:
                     s = getattr(elm, DECL[t][0])(**e)
-                if direction:
+                if direction and t in ('ground', 'node'):
+                    s = getattr(s, direction)()
+                elif direction:
                     s = getattr(s, direction)(length * unit)
                 if after is not None:
                     s = s.at(placed[after].end)
